@@ -124,6 +124,60 @@ def run(tier, seed, only=None):
 
                 run_obligations(rep, tag + " closed form", obs, timeout, levels=(1, 2), replay=rp, relate=[], relate_assume=pos,
                                 family=lambda ob, cls=cls: "%s: %s" % (cls, ob.meta["family"]))
+            # (4b) closed forms (wingbox): Euler-Bernoulli strains of the cubic element at its second node, section points
+            # at the distances the section-property component reports, thin-wall torsion and VQ/(It) shear - written with
+            # vectors (no rotation matrix).  The element frame of the library: e1 along the element, ey = e1 x x_global
+            # (pointing down for a wing along +y), ez = e1 x ey (pointing to the leading edge); the section is described
+            # with "up" = -ey and "aft" = -ez, so top / bottom / front / rear are at y = -htop, +hbottom, z = +hfront, -hrear.
+            if kind == "wingbox":
+                E, Gm, tssf = S(s["E"]), S(s["G"]), S(s["strength_factor_for_upper_skin"])
+                obs = []
+                for e in range(ny - 1):
+                    d = [nodes[e + 1, c] - nodes[e, c] for c in range(3)]
+                    L = norm3(d)
+                    e1 = [d[c] / L for c in range(3)]
+                    cy = cross(e1, [ONE, ZERO, ZERO])
+                    ncy = norm3(cy)
+                    ey = [cy[c] / ncy for c in range(3)]
+                    ez = cross(e1, ey)
+                    u0, u1 = [disp[e, c] for c in range(3)], [disp[e + 1, c] for c in range(3)]
+                    t0, t1 = [disp[e, 3 + c] for c in range(3)], [disp[e + 1, 3 + c] for c in range(3)]
+                    eps0 = (dot(u1, e1) - dot(u0, e1)) / L
+                    # curvatures at the second node from the cubic interpolation: v2 = d2v/dx2 (slope +theta_z), and the same
+                    # for w with slope -theta_y; v3 = third derivative of v
+                    v0, v1, tz0, tz1 = dot(u0, ey), dot(u1, ey), dot(t0, ez), dot(t1, ez)
+                    w0, w1, ty0, ty1 = dot(u0, ez), dot(u1, ez), dot(t0, ey), dot(t1, ey)
+                    kz = (6 * v0 + 2 * L * tz0 - 6 * v1 + 4 * L * tz1) / (L * L)        # d theta_z / dx
+                    ky = -(6 * w0 - 2 * L * ty0 - 6 * w1 - 4 * L * ty1) / (L * L)       # d theta_y / dx
+                    v3 = (12 * v0 + 6 * L * tz0 - 12 * v1 + 6 * L * tz1) / (L * L * L)
+                    phi = (dot(t1, e1) - dot(t0, e1)) / L
+                    ht, hb, hf, hr = (ins[n][e] for n in ("htop", "hbottom", "hfront", "hrear"))
+                    tsp = ins["spar_thickness"][e]
+                    tau_t = Gm * ins["J"][e] * phi / (2 * tsp * ins["A_enc"][e])          # T / (2 t A_enc)
+                    tau_v = -E * v3 * ins["Qz"][e] / (2 * tsp)                            # V Q / (I 2t) with V = -E I v3
+                    for conv, sg in (("library", -1), ("beam theory", 1)):
+                        # axial stress at a section point (y, z): E (eps0 - y kz + z ky); `sg` is the sign with which the
+                        # fore-aft bending term enters: +1 as derived, -1 as the library has it (recorded finding)
+                        top, bot = E * ht * kz, -E * hb * kz
+                        front, rear = sg * E * hf * ky, -sg * E * hr * ky
+                        ax = E * eps0
+                        combos = [(top + rear + ax, tau_t, tssf), (bot + front + ax, tau_t, ONE), (front + ax, tau_t - tau_v, ONE), (rear + ax, tau_t + tau_v, tssf)]
+                        for c, (sig, tau, fac) in enumerate(combos):
+                            if conv == "beam theory" and c < 2:
+                                continue  # the corner combinations carry the same fore-aft term: posed for the two spars only
+                            fam = ("wingbox combination %d = sqrt((axial + bending)^2 + 3 shear^2) of the element's own section distances (fore-aft sign as implemented)" % c if conv == "library"
+                                   else "wingbox combination %d: fore-aft bending enters with the sign of beam theory (leading-edge side in tension when the tip is pushed aft)" % c)
+                            obs.append(oblig.Ob("%s closed form vm[%d,%d]" % (conv, e, c), lhs=vm[e, c] * fac, rhs=sqrt(sig * sig + 3 * tau * tau), assume=pos,
+                                                meta={"family": fam, "idx": [e, c], "fac": float(s["strength_factor_for_upper_skin"]) if c in (0, 3) else 1.0}))
+
+                def rpw(ob, env):
+                    a, _ = real_vm(env)
+                    i = tuple(ob.meta["idx"])
+                    ref = float(evalf([ob.rhs], model.FillEnv(env))[ob.rhs.nid])
+                    return model.differs(a[i] * ob.meta["fac"], ref, 1e-6), "vonmises%s x factor = %.9g, closed form %.9g" % (ob.meta["idx"], a[i] * ob.meta["fac"], ref)
+
+                run_obligations(rep, tag + " closed form", obs, timeout, levels=(1, 2), replay=rpw, relate=[], relate_assume=pos,
+                                family=lambda ob, cls=cls: "%s: %s" % (cls, ob.meta["family"]))
             # (5) wingbox: allowable of the upper-skin combinations (0 and 3) is strength_factor_for_upper_skin * yield, i.e.
             # the reported value is stress / factor; and the closed form for uniform axial strain
             if kind == "wingbox":
